@@ -26,7 +26,25 @@ Two worlds (vf/worlds/collworld.py):
 Minimal signatures as in C38 (failure class re-enumerated in global
 simplest-first order).
 
-Mutations caught: see the list at the end of the builder report / below.
+Mutations caught (each in a private copy of lib/, ``VF_REPO=... ./check C50``; all gave new VIOLATION signatures):
+
+* ``OrderingList.insert`` / ``pop`` / ``__delitem__``: the ``self._reorder()`` call dropped (three separate edits)
+* ``OrderingList.remove``: ``adapter._referenced_by_owner`` test inverted
+* ``count_from_1``: returns 0 for index 0
+* ``OrderingList._order_entity``: ``and not reorder`` dropped (numbered entities never renumbered)
+* ``_AssociationList.remove``: ``return`` after the deletion replaced by ``break`` (falls into ``raise ValueError``)
+* ``_AssociationSet.add``: membership test dropped (duplicate intermediary objects / rows)
+* ``_AssociationDict.setdefault``: returns the default for a present key
+* ``_AssociationSet.intersection_update``: ``remove, add`` swapped
+* ``_AssociationList.pop``: index ignored
+* ``_AssociationDict.popitem``: returns the intermediary object instead of the value
+* ``_AssociationList.__delitem__``: deletes with ``list.__delitem__`` (no events: rows stay, caught by the raw-SQL check)
+
+Genuine defects found on the unchanged tree (reported; /verif/proposed_fixes/c50_*.diff and c38_slice.diff / c38_imul.diff):
+ordering_list: ``coll[-1] = x`` stores position -1, ``reverse()`` / ``sort()`` do not renumber, slice assignment and
+``*= 0`` inherit the C38 defects; association proxies: list slice assignment (clamping, negative / zero step),
+``insert()`` with an out-of-range negative index, ``*= -1``, ``extend(self)`` / ``+= self`` never terminate,
+dict proxy ``pop(key, default)`` on a missing key, missing ``|=``, set proxy ``-= self``.
 """
 from __future__ import annotations
 
@@ -68,7 +86,7 @@ META = dict(
     ],
     bounds=dict(
         quick="sizes 0-4; full depth-1 argument domain on transient objects; reduced domain for depth-2 and for the Session/flush/reload route",
-        thorough="full argument domain at depth 2 and in the Session/flush/reload route",
+        thorough="full argument domain at depth 2 (transient) and at depth 1 in the Session/flush/reload route for all four ordering_list configurations; sizes 0-4 everywhere",
     ),
 )
 
@@ -293,7 +311,7 @@ def run_ap(case):
     sess = None
     problems = []
     info = dict(nontrivial=False, plain_outcome="ok", outcome=None, skipped=None)
-    ident = lambda x: x  # noqa: E731
+    ident = lambda x: x if (x is None or isinstance(x, (str, int, bool))) else "<%s>" % type(x).__name__  # noqa: E731
     try:
         if route == "persistent":
             sess = Session(engine())
@@ -448,33 +466,52 @@ AP_PREFIX = dict(
     dict=c38.PREFIX["adict"],
 )
 
-# work groups: (world, config, route)
-OL_GROUPS = [(v, r) for v in cw.OL_VARIANTS for r in ("transient", "loaded")]
-AP_GROUPS = [(k, r) for k in AP_KINDS for r in ("transient", "persistent")]
 
 
 def _full(tier, route, depth):
     if tier == "thorough":
-        return True
+        return depth == 1 or route == "transient"
     return depth == 1 and route == "transient"
+
+
+def _db(route):
+    return route in ("loaded", "persistent")
+
+
+def groups(tier):
+    """(world, configuration, route) work groups of a tier, canonical order"""
+    out = []
+    for v in cw.OL_VARIANTS:
+        out.append(("ol", v, "transient"))
+    for v in ("cf1", "roa", "cf0", "tens"):  # same relative order in both tiers (minimal signatures)
+        if tier == "quick" and v not in ("cf1", "roa"):
+            continue
+        out.append(("ol", v, "loaded"))
+    for r in ("transient", "persistent"):
+        for k in AP_KINDS:
+            out.append(("ap", k, r))
+    return out
 
 
 def group_cases(world, cfg, route, family, tier, part=0, parts=1):
     """global simplest-first order within one (world, configuration, route, family)"""
     unit = 0
+    quick_db = tier == "quick" and _db(route)
+    if quick_db and family in ("getslice", "getitem"):
+        return
     for depth in (1, 2):
         full = _full(tier, route, depth)
+        small = quick_db or (depth == 2 and tier == "quick")
         if world == "ol":
             ops = ol_families(full)[family]
-            prefixes = [None] if depth == 1 else OL_PREFIX
-            sizes = range(0, 5) if (depth == 1 or tier == "thorough") else (0, 2, 3)
-            inits = [("size", s) for s in sizes]
+            prefixes = [None] if depth == 1 else (OL_PREFIX[:3] if quick_db else OL_PREFIX)
+            inits = [("size", s) for s in ((0, 2, 3) if small else range(0, 5))]
         else:
             base = AP_KINDS[cfg][0]
             ops = ap_families(base, full).get(family, [])
-            prefixes = [None] if depth == 1 else AP_PREFIX[base]
+            prefixes = [None] if depth == 1 else (AP_PREFIX[base][:3] if quick_db else AP_PREFIX[base])
             n = len(AP_INIT[base])
-            inits = [("init", i) for i in (range(n) if (depth == 1 or tier == "thorough") else (0, 2, 3))]
+            inits = [("init", i) for i in ((0, 2, 3) if small else range(n))]
         nchunks = 1 if parts == 1 else max(1, min(8, len(ops) // 400))
         for _k, iv in inits:
             for pf in prefixes:
@@ -494,29 +531,18 @@ def group_cases(world, cfg, route, family, tier, part=0, parts=1):
 
 def shards(tier, seed):
     out = []
-    for v, r in OL_GROUPS:
-        for fam in ol_families(True):
+    for world, cfg, r in groups(tier):
+        fams = ol_families(True) if world == "ol" else ap_families(AP_KINDS[cfg][0], True)
+        for fam in fams:
+            if tier == "quick" and _db(r) and fam in ("getslice", "getitem"):
+                continue
             parts = 1
             if fam == "setslice":
-                parts = 12 if (r == "transient" or tier == "thorough") else 4
-                if tier == "thorough":
-                    parts = 24
+                parts = 24 if tier == "thorough" else (8 if not _db(r) else 4)
             elif fam in ("getslice", "delslice") and tier == "thorough":
-                parts = 4
+                parts = 6
             for i in range(parts):
-                out.append(["ol", v, r, fam, i, parts])
-    for k, r in AP_GROUPS:
-        base = AP_KINDS[k][0]
-        for fam in ap_families(base, True):
-            parts = 1
-            if fam == "setslice":
-                parts = 12 if (r == "transient" or tier == "thorough") else 4
-                if tier == "thorough":
-                    parts = 24
-            elif fam in ("getslice", "delslice") and tier == "thorough":
-                parts = 4
-            for i in range(parts):
-                out.append(["ap", k, r, fam, i, parts])
+                out.append([world, cfg, r, fam, i, parts])
     return out
 
 
@@ -550,21 +576,27 @@ def minimal(world, cfg, route, family, sub, oclass, aspect, tier, trigger):
         return _MIN[key]
     found = None
     if world == "ol":
-        groups = [(v, r) for r in ("transient", "loaded") for v in cw.OL_VARIANTS]
+        grps = [(v, r) for _w, v, r in groups(tier) if _w == "ol"]
     else:
-        groups = [(cfg, r) for r in ("transient", "persistent")]
-    for g_cfg, g_route in groups:
-        if (world == "ol" and aspect == "persist" and g_route == "transient") or (world == "ap" and aspect == "persist" and g_route == "transient"):
-            continue
-        for s2, case in group_cases(world, g_cfg, g_route, family, tier):
-            if s2 != sub:
+        grps = [(cfg, r) for r in ("transient", "persistent")]
+    # the quick domain is searched first in every tier, so that both tiers report the same signature
+    for t in ("quick", tier) if tier != "quick" else ("quick",):
+        if world == "ol":
+            grps = [(v, r) for _w, v, r in groups(t) if _w == "ol"]
+        for g_cfg, g_route in grps:
+            if aspect == "persist" and not _db(g_route):
                 continue
-            problems, info = run_case(case)
-            if info["skipped"] or _oclass(family, info["plain_outcome"]) != oclass:
-                continue
-            hit = [p for p in problems if p[0] == aspect]
-            if hit:
-                found = (case, hit[0][1])
+            for s2, case in group_cases(world, g_cfg, g_route, family, t):
+                if s2 != sub:
+                    continue
+                problems, info = run_case(case)
+                if info["skipped"] or _oclass(family, info["plain_outcome"]) != oclass:
+                    continue
+                hit = [p for p in problems if p[0] == aspect]
+                if hit:
+                    found = (case, hit[0][1])
+                    break
+            if found:
                 break
         if found:
             break
@@ -586,7 +618,8 @@ def run_shard(shard, tier, rec):
             rec.count("skipped_inconsistent_prefix")
             continue
         rec.case(repr(sorted(case.items(), key=str)), nontrivial=info["nontrivial"])
-        rec.state(("after", world, cfg, repr(info.get("after"))))
+        setpop = case["op"][0] == "pop" and world == "ap" and AP_KINDS[cfg][0] == "set"  # member chosen depends on addresses
+        rec.state(("after", world, cfg, repr(info.get("after")) if not setpop else len(info.get("after") or ())))
         rec.outcome(info["outcome"])
         rec.count("cases_" + world)
         if route in ("loaded", "persistent"):
@@ -603,7 +636,7 @@ def run_shard(shard, tier, rec):
                 mcase, mtext = minimal(world, mcfg, route, family, sub, oclass, aspect, tier, (dict(case, kind=mcfg) if world == "ap" else case, text))
                 sig = "%s: %s -> %s" % (aspect, describe(mcase), mtext)
                 rec.violation(sig, "failure class (%s, %s, %s, %s, builtin %s); first seen at: %s -> %s" % (world, family, sub or "-", aspect, oclass, describe(case), text), mcase)
-        elif info["nontrivial"] and sampled < 1 and info["plain_outcome"] == "ok":
+        elif info["nontrivial"] and sampled < 1 and info["plain_outcome"] == "ok" and not setpop:
             sampled += 1
             rec.sample(dict(case=describe(case), before=info["before"], after=info["after"]), limit=8)
 
